@@ -1177,6 +1177,13 @@ silent("c04-s-node-fresh-preferred-by-if-statement", "C04", TERMS,
        "            fresh = expr.fresh if node_fresh is None else node_fresh\n",
        "            fresh = node_fresh\n            if fresh is None:\n                fresh = expr.fresh\n")
 
+
+fire("c15-sigmoid-inf-over-inf", "C15", BUILTIN2, "    return 1 / (1 + exp(-x))\n", "    z = exp(x)\n    return z / (1 + z)\n", "R15.10", "sigmoid")
+silent("c15-s-sigmoid-via-local", "C15", BUILTIN2, "    return 1 / (1 + exp(-x))\n", "    e = exp(-x)\n    return 1 / (1 + e)\n")
+fire("c15-max-scalar-array-cast-to-array-dtype", "C15", ARRAY,
+     "@max.register((int, float), array)\ndef _max(x, y):\n    return np.clip(y, x, None)\n", "@max.register((int, float), array)\ndef _max(x, y):\n    return np.clip(y, x, None).astype(y.dtype, copy=False)\n",
+     "R15.14", "_max")
+
 # ===== derived variants: must stay at the END of this file (they enumerate every rename() variant above) =====
 # `if c: A else: B` -> `if not c: B else: A` in the anchor functions (behaviour-preserving)
 def invert(prop, file, qual):
